@@ -293,6 +293,9 @@ fn c09_o5_adaptive_timeout_expiry() {
     let in_time = Duration::from_secs(dt) < timeout0;
     assert!(before == in_time, "C06.O1 request is in flight exactly until its timeout");
     assert!(r == in_time, "C09.O4 reply accepted iff it arrives before the request expired");
+    if !r {
+        assert!(s.inflight_requests.request_timeout() == timeout0, "C09.O4 a reply that arrives after expiry has no effect (the request timeout is untouched)");
+    }
     let again = s.is_expected_response(&resp(tid), &to);
     assert!(!again, "C09.O3 reply consumed at most once");
     kani::cover!(r && dt >= 2);
